@@ -796,8 +796,8 @@ def eq_cases(rng, tier, v):
         except Exception as e:      # generator produced something the constructors reject
             continue
         ha, hb = obs_hash(oa), obs_hash(ob)
-        term = ('{| e_v := %s; e_a := %s; e_b := %s; e_ab := %s; e_ba := %s; e_ha := %s; e_hb := %s; e_hh := %s |}'
-                % (vv, coq_thing(a), coq_thing(b), obs_eq(oa, ob), obs_eq(ob, oa),
+        term = ('{| e_v := %s; e_a := %s; e_b := %s; e_same := %s; e_ab := %s; e_ba := %s; e_ha := %s; e_hb := %s; e_hh := %s |}'
+                % (vv, coq_thing(a), coq_thing(b), C.b(mode == 'same'), obs_eq(oa, ob), obs_eq(ob, oa),
                    C.b(ha is not None), C.b(hb is not None), C.b(ha is not None and ha == hb)))
         key = (repr(a), repr(b)) if a[0] == b[0] else None
         cs.add(term, {'a': repr(a)[:300], 'b': repr(b)[:300], 'mode': mode}, key)
